@@ -421,6 +421,7 @@ def run(ctx):
     probed = _probe_by_interpretation(ctx, prog, probe, step)
     _flags(ctx, prog, probe, step, probed)
     _stop_flag(ctx, prog, plan, probe, plan_cl)
+    _search_outcome(ctx, prog, plan, probe, plan_cl)
 
 
 def _single_vec_elem(t):
@@ -1150,3 +1151,35 @@ def _probe_by_interpretation(ctx, prog, probe, step):
             ctx.check(sorted(swept) == sorted(n for n, f in expected(poses, True)), 'R12.8', key + '/sweep', where, probe.path,
                       'every waypoint of the assembled trace must be checked for collisions', found=str(swept)[:300])
     return len(ctx.violations) == n_before
+
+
+def _search_outcome(ctx, prog, plan, probe, plan_cl):
+    """R12.9: the parallel search over the strategies ends only with a strategy that worked: the closure handed to the
+    `find_map_any` answers Some(..) on the Ok edge of its probe and None on the Err edge - a failing strategy that ended the
+    search would make the outcome depend on which strategy a thread happens to finish first."""
+    ctx.rule('R12.9', 'the strategy search stops only on a strategy that worked (Some on the Ok edge of the probe, None on its Err edge)')
+    for c in plan_cl:
+        sites = [(bi, t) for bi, t in c.calls() if t['callee'].get('resolved') == probe.path]
+        if len(sites) != 1:
+            continue
+        ctx.fn(c)
+        bi, t = sites[0]
+        res = strip(c.call_term(t, (bi, None)))
+        bad = []
+        some = 0
+        for tv, d, rb in c.return_values():
+            tv = strip(tv)
+            if not (isinstance(tv, tuple) and tv[0] == 'agg'):
+                bad.append('unrecognised return %s' % show(tv, maxdepth=3))
+                continue
+            edge = [k for g, k, sw in c.guard_terms(d[1]) if isinstance(strip(g), tuple) and strip(g)[0] == 'discr' and strip(strip(g)[1]) == res]
+            if 'Some' in str(tv[1]):
+                some += 1
+                inner = strip(tv[2])
+                if edge != [0] or not (isinstance(inner, tuple) and inner[0] == 'agg' and 'Ok' in str(inner[1])):
+                    bad.append('Some(%s) on edge %s of the probe' % (show(inner, maxdepth=2), edge))
+            elif 'None' in str(tv[1]):
+                if edge != [1]:
+                    bad.append('None on edge %s of the probe' % edge)
+        ctx.check(not bad and some == 1, 'R12.9', 'search-outcome', c.where(bi), c.path,
+                  'the search over the strategies must go on after a strategy that failed and stop with one that worked: ' + '; '.join(bad), found=str(bad))
